@@ -1,1 +1,334 @@
-(* placeholder, being written *)
+(* Proofs about shell quoting (Path/ShellQuote.v): the words POSIX sh obtains from shellEscaped(p) are exactly [p];
+   the output is p itself iff every byte is in the whitelist.
+   The exported statements are listed in the comment block at the end of the file. *)
+From LLB Require Import Base.Bytes Base.BytesFacts Path.ShellQuote.
+Local Open Scope N_scope.
+
+(* ---------- membership ---------- *)
+
+Lemma mem_byte_In b l : mem_byte b l = true <-> In b l.
+Proof.
+  unfold mem_byte. rewrite existsb_exists. split.
+  - intros [x [Hx He]]. apply N.eqb_eq in He. subst x. exact Hx.
+  - intros H. exists b. split; [exact H | apply N.eqb_refl].
+Qed.
+
+Lemma mem_byte_false b l : mem_byte b l = false -> forall x, In x l -> b <> x.
+Proof.
+  intros H x Hx E. subst x. apply mem_byte_In in Hx. congruence.
+Qed.
+
+(* what a byte that is not special anywhere is not *)
+Lemma not_special b : sh_always_special b = false ->
+  (b =? 0) = false /\ sh_blank b = false /\ (b =? 39) = false /\ (b =? 92) = false.
+Proof.
+  unfold sh_always_special. intros H. pose proof (mem_byte_false _ _ H) as F.
+  assert (H0 : b <> 0) by (apply F; cbn; tauto).
+  assert (H32 : b <> 32) by (apply F; cbn; tauto).
+  assert (H9 : b <> 9) by (apply F; cbn; tauto).
+  assert (H39 : b <> 39) by (apply F; cbn; tauto).
+  assert (H92 : b <> 92) by (apply F; cbn; tauto).
+  unfold sh_blank. apply N.eqb_neq in H0, H32, H9, H39, H92. rewrite H0, H32, H9, H39, H92. auto.
+Qed.
+
+(* ---------- single steps of the sh tokeniser ---------- *)
+
+Lemma step_out_open cur r : sh_go ShOut cur (39 :: r) = sh_go ShQuote cur r.
+Proof. reflexivity. Qed.
+
+Lemma step_word_open cur r : sh_go ShWord cur (39 :: r) = sh_go ShQuote cur r.
+Proof. reflexivity. Qed.
+
+Lemma step_quote_close cur r : sh_go ShQuote cur (39 :: r) = sh_go ShWord cur r.
+Proof. reflexivity. Qed.
+
+Lemma step_word_backslash_quote cur r : sh_go ShWord cur (92 :: 39 :: r) = sh_go ShWord (39 :: cur) r.
+Proof. reflexivity. Qed.
+
+Lemma step_quote_other b cur r : b <> 0 -> b <> 39 -> sh_go ShQuote cur (b :: r) = sh_go ShQuote (b :: cur) r.
+Proof.
+  intros H0 H39. apply N.eqb_neq in H0, H39. cbn [sh_go]. rewrite H0, H39. reflexivity.
+Qed.
+
+Lemma step_word_plain b cur r : sh_always_special b = false -> sh_go ShWord cur (b :: r) = sh_go ShWord (b :: cur) r.
+Proof.
+  intros H. destruct (not_special b H) as [H0 [Hb [H39 H92]]]. cbn [sh_go]. rewrite H0, Hb, H39, H92, H. reflexivity.
+Qed.
+
+Lemma step_out_plain b r : sh_always_special b = false -> sh_start_special b = false ->
+  sh_go ShOut [] (b :: r) = sh_go ShWord [b] r.
+Proof.
+  intros H Hs. destruct (not_special b H) as [H0 [Hb [H39 H92]]].
+  unfold sh_start_special in Hs. apply orb_false_iff in Hs. destruct Hs as [H35 H126].
+  cbn [sh_go]. rewrite H0, Hb, H39, H92, H, H35, H126. reflexivity.
+Qed.
+
+(* ---------- runs ---------- *)
+
+(* an unquoted run of bytes that are special nowhere is taken literally *)
+Lemma word_plain s : forall cur, Forall (fun b => sh_always_special b = false) s ->
+  sh_go ShWord cur s = Some [rev cur ++ s].
+Proof.
+  induction s as [|b r IH]; intros cur F.
+  - cbn [sh_go]. rewrite app_nil_r. reflexivity.
+  - inversion F as [|x l Hb Hr]; subst. rewrite step_word_plain by exact Hb. rewrite IH by exact Hr.
+    cbn [rev]. rewrite <- app_assoc. reflexivity.
+Qed.
+
+(* inside '...' every byte other than ' (and NUL, which cannot occur) is taken literally *)
+Lemma quote_plain s : forall cur rest, ~ In 0 s -> ~ In 39 s ->
+  sh_go ShQuote cur (s ++ rest) = sh_go ShQuote (rev s ++ cur) rest.
+Proof.
+  induction s as [|b r IH]; intros cur rest H0 H39; [reflexivity|].
+  cbn [app]. rewrite step_quote_other.
+  - rewrite IH.
+    + cbn [rev]. rewrite <- app_assoc. reflexivity.
+    + intros H. apply H0. right. exact H.
+    + intros H. apply H39. right. exact H.
+  - intros E. apply H0. left. exact E.
+  - intros E. apply H39. left. exact E.
+Qed.
+
+(* the tail the third branch of appendShellEscapedString emits: every ' replaced by '\'' , then the closing ' *)
+Lemma quote_escaped t : forall cur, ~ In 0 t ->
+  sh_go ShQuote cur (flat_map escape_byte t ++ [39]) = Some [rev cur ++ t].
+Proof.
+  induction t as [|b r IH]; intros cur H0.
+  - cbn [flat_map app]. rewrite step_quote_close. cbn [sh_go]. rewrite app_nil_r. reflexivity.
+  - assert (H0r : ~ In 0 r) by (intros H; apply H0; right; exact H).
+    assert (Hb0 : b <> 0) by (intros E; apply H0; left; exact E).
+    cbn [flat_map]. unfold escape_byte at 1. destruct (N.eqb_spec b 39) as [->|Hb].
+    + cbn [app]. rewrite step_quote_close, step_word_backslash_quote, step_word_open.
+      rewrite IH by exact H0r. cbn [rev]. rewrite <- app_assoc. reflexivity.
+    + cbn [app]. rewrite step_quote_other by assumption. rewrite IH by exact H0r.
+      cbn [rev]. rewrite <- app_assoc. reflexivity.
+Qed.
+
+(* ---------- the two searches ---------- *)
+
+Lemma find_first_not_of_none wl s :
+  find_first_not_of wl s = None <-> forallb (fun b => mem_byte b wl) s = true.
+Proof.
+  induction s as [|b r IH]; [cbn; tauto|].
+  cbn [find_first_not_of forallb]. destruct (mem_byte b wl); cbn [andb].
+  - rewrite <- IH. destruct (find_first_not_of wl r); cbn; split; intros H; congruence.
+  - split; discriminate.
+Qed.
+
+(* a quote character cannot precede the first byte outside a whitelist that lacks the quote character *)
+Lemma find_quote_from wl s : mem_byte 39 wl = false -> forall pos,
+  find_first_not_of wl s = Some pos -> find_first_of 39 s pos = find_first_of 39 s 0.
+Proof.
+  intros Hq. induction s as [|b r IH]; intros pos H; [discriminate|].
+  cbn [find_first_not_of] in H. destruct (mem_byte b wl) eqn:Eb.
+  - destruct (find_first_not_of wl r) as [p|] eqn:Er; [|discriminate]. cbn in H. inversion H; subst pos.
+    cbn [find_first_of]. rewrite (IH p eq_refl).
+    destruct (N.eqb_spec b 39) as [->|Hb]; [congruence | reflexivity].
+  - inversion H; subst. reflexivity.
+Qed.
+
+Lemma find_first_of_none c s : find_first_of c s 0 = None -> ~ In c s.
+Proof.
+  induction s as [|b r IH]; intros H Hin; [destruct Hin|].
+  cbn [find_first_of] in H. destruct (N.eqb_spec b c) as [E|E]; [discriminate|].
+  destruct (find_first_of c r 0) eqn:Er; [discriminate|]. destruct Hin as [Hin|Hin]; [congruence | exact (IH eq_refl Hin)].
+Qed.
+
+Lemma find_first_of_some c s : forall q, find_first_of c s 0 = Some q -> ~ In c (firstn q s).
+Proof.
+  induction s as [|b r IH]; intros q H; [discriminate|].
+  cbn [find_first_of] in H. destruct (N.eqb_spec b c) as [E|E].
+  - inversion H; subst q. intros Hin. destruct Hin.
+  - destruct (find_first_of c r 0) as [q'|] eqn:Er; [|discriminate]. cbn in H. inversion H; subst q.
+    cbn [firstn]. intros [Hin|Hin]; [congruence | exact (IH q' eq_refl Hin)].
+Qed.
+
+Lemma not_in_firstn (x : byte) n l : ~ In x l -> ~ In x (firstn n l).
+Proof. intros H Hin. apply H. rewrite <- (firstn_skipn n l). apply in_or_app. left. exact Hin. Qed.
+
+Lemma not_in_skipn (x : byte) n l : ~ In x l -> ~ In x (skipn n l).
+Proof. intros H Hin. apply H. rewrite <- (firstn_skipn n l). apply in_or_app. right. exact Hin. Qed.
+
+(* ---------- the side condition on the whitelist ---------- *)
+
+Lemma whitelist_ok_member wl b : whitelist_ok wl = true -> mem_byte b wl = true ->
+  sh_always_special b = false /\ sh_start_special b = false.
+Proof.
+  unfold whitelist_ok. intros H Hb. rewrite forallb_forall in H. apply mem_byte_In in Hb. specialize (H b Hb).
+  apply negb_true_iff in H. unfold sh_meta in H. apply orb_false_iff in H. exact H.
+Qed.
+
+Lemma whitelist_ok_no_quote wl : whitelist_ok wl = true -> mem_byte 39 wl = false.
+Proof.
+  intros H. destruct (mem_byte 39 wl) eqn:E; [|reflexivity].
+  destruct (whitelist_ok_member wl 39 H E) as [H1 _]. vm_compute in H1. discriminate.
+Qed.
+
+(* ---------- shell_roundtrip ---------- *)
+
+(* For every whitelist none of whose members is special to sh (anywhere in a word, or at the start of a word),
+   every non-empty NUL-free byte string p: the words sh obtains from shellEscaped(p) in argument position are
+   exactly [p].  Bytes 0x80..0xFF, newlines, quotes, '$', '#', '~', blanks are all covered. *)
+Theorem shell_roundtrip wl p : whitelist_ok wl = true -> p <> [] -> ~ In 0 p ->
+  sh_words (shell_escaped_gen wl p) = Some [p].
+Proof.
+  intros Hwl Hne H0. unfold shell_escaped_gen, sh_words.
+  destruct (find_first_not_of wl p) as [pos|] eqn:Ef.
+  - rewrite (find_quote_from wl p (whitelist_ok_no_quote wl Hwl) pos Ef).
+    destruct (find_first_of 39 p 0) as [q|] eqn:Eq.
+    + (* some byte needs quoting and there is a quote character at q *)
+      cbn [app]. rewrite step_out_open.
+      rewrite quote_plain; [|apply not_in_firstn; exact H0 | exact (find_first_of_some 39 p q Eq)].
+      rewrite quote_escaped by (apply not_in_skipn; exact H0).
+      rewrite app_nil_r, rev_involutive, firstn_skipn. reflexivity.
+    + (* some byte needs quoting and there is no quote character: 'p' *)
+      cbn [app]. rewrite step_out_open.
+      rewrite quote_plain; [|exact H0 | exact (find_first_of_none 39 p Eq)].
+      rewrite step_quote_close. cbn [sh_go]. rewrite app_nil_r, rev_involutive. reflexivity.
+  - (* every byte is in the whitelist: p is emitted as it is *)
+    apply find_first_not_of_none in Ef. rewrite forallb_forall in Ef.
+    assert (F : Forall (fun b => sh_always_special b = false /\ sh_start_special b = false) p).
+    { apply Forall_forall. intros b Hb. apply (whitelist_ok_member wl b Hwl). apply Ef. exact Hb. }
+    destruct p as [|b r]; [congruence|]. inversion F as [|x l [Hb1 Hb2] Hr]; subst.
+    rewrite step_out_plain by assumption. rewrite word_plain.
+    + reflexivity.
+    + eapply Forall_impl; [|exact Hr]. cbn. tauto.
+Qed.
+
+(* the same for the whitelist of the current source *)
+Lemma whitelist_is_ok : whitelist_ok whitelist = true.
+Proof. vm_compute. reflexivity. Qed.
+
+Corollary shell_roundtrip_current p : p <> [] -> ~ In 0 p -> sh_words (shell_escaped p) = Some [p].
+Proof. apply shell_roundtrip. exact whitelist_is_ok. Qed.
+
+(* ---------- the side conditions are needed: counter-examples ---------- *)
+
+(* the empty path is emitted as nothing: sh sees no word at all (the caller would have to write '' ) *)
+Theorem shell_roundtrip_empty_refuted : exists p, p = [] /\ sh_words (shell_escaped p) = Some [] /\ sh_words (shell_escaped p) <> Some [p].
+Proof. exists []. split; [reflexivity|]. split; [reflexivity | discriminate]. Qed.
+
+(* a NUL byte cannot be handed to sh -c at all (the C string ends there); the model answers None *)
+Theorem shell_roundtrip_nul_refuted : exists p, In 0 p /\ sh_words (shell_escaped p) = None.
+Proof. exists [97; 0; 98]. split; [cbn; tauto | reflexivity]. Qed.
+
+(* '#' in the whitelist (the source before the repair): "#x" is emitted unquoted and sh reads a comment: no word *)
+Theorem whitelist_with_hash_refuted : exists p, p <> [] /\ ~ In 0 p /\
+  shell_escaped_gen (35 :: whitelist) p = p /\ sh_words (shell_escaped_gen (35 :: whitelist) p) = Some [].
+Proof.
+  exists [35; 120]. split; [discriminate|]. split; [cbn; intros [H|[H|[]]]; discriminate|]. split; reflexivity.
+Qed.
+
+(* '~' in the whitelist: "~x" is emitted unquoted and sh performs tilde expansion (outside the fragment) *)
+Theorem whitelist_with_tilde_refuted : exists p, p <> [] /\ ~ In 0 p /\
+  shell_escaped_gen (126 :: whitelist) p = p /\ sh_words (shell_escaped_gen (126 :: whitelist) p) = None.
+Proof.
+  exists [126; 120]. split; [discriminate|]. split; [cbn; intros [H|[H|[]]]; discriminate|]. split; reflexivity.
+Qed.
+
+(* in general: a non-NUL metacharacter in the whitelist breaks the round trip of the one-byte path made of it,
+   so whitelist_ok is exactly the right condition (NUL aside, which the NUL-free premise excludes anyway) *)
+Theorem whitelist_ok_necessary wl b : In b wl -> b <> 0 -> sh_meta b = true ->
+  shell_escaped_gen wl [b] = [b] /\ sh_words (shell_escaped_gen wl [b]) <> Some [[b]].
+Proof.
+  intros Hin Hb0 Hm.
+  assert (E : shell_escaped_gen wl [b] = [b]).
+  { unfold shell_escaped_gen. cbn [find_first_not_of]. apply mem_byte_In in Hin. rewrite Hin. reflexivity. }
+  split; [exact E|]. rewrite E.
+  unfold sh_meta, sh_always_special, sh_start_special in Hm.
+  apply orb_true_iff in Hm. destruct Hm as [Hm|Hm].
+  - apply mem_byte_In in Hm. cbn [In] in Hm.
+    repeat (destruct Hm as [Hm|Hm]; [subst b; try congruence; vm_compute; discriminate|]). destruct Hm.
+  - apply orb_true_iff in Hm. destruct Hm as [Hm|Hm]; apply N.eqb_eq in Hm; subst b; vm_compute; discriminate.
+Qed.
+
+(* '=' and '%' are members of the whitelist and harmless in argument position: they are literal *)
+Example equals_percent_literal : sh_words [97; 61; 98; 37; 99] = Some [[97; 61; 98; 37; 99]] /\
+  sh_meta 61 = false /\ sh_meta 37 = false.
+Proof. repeat split; reflexivity. Qed.
+
+(* ---------- shell_escaped_safe_chars ---------- *)
+
+Lemma flat_map_escape_length l : (length l <= length (flat_map escape_byte l))%nat.
+Proof.
+  induction l as [|b r IH]; [cbn; lia|]. cbn [flat_map]. rewrite app_length. unfold escape_byte at 1.
+  destruct (b =? 39); cbn [length]; lia.
+Qed.
+
+(* the output is the input itself iff every byte is in the whitelist - for EVERY whitelist and every byte string *)
+Theorem shell_escaped_safe_chars wl p :
+  shell_escaped_gen wl p = p <-> forallb (fun b => mem_byte b wl) p = true.
+Proof.
+  split.
+  - intros H. apply find_first_not_of_none. unfold shell_escaped_gen in H.
+    destruct (find_first_not_of wl p) as [pos|]; [exfalso|reflexivity].
+    apply (f_equal (@length byte)) in H.
+    destruct (find_first_of 39 p pos) as [q|].
+    + rewrite !app_length in H. cbn [length] in H.
+      pose proof (f_equal (@length byte) (firstn_skipn q p)) as L. rewrite app_length in L.
+      pose proof (flat_map_escape_length (skipn q p)). lia.
+    + rewrite !app_length in H. cbn [length] in H. lia.
+  - intros H. apply find_first_not_of_none in H. unfold shell_escaped_gen. rewrite H. reflexivity.
+Qed.
+
+(* otherwise the output is a quoted string: it starts and ends with the quote character *)
+Theorem shell_escaped_quoted wl p : forallb (fun b => mem_byte b wl) p = false ->
+  exists mid, shell_escaped_gen wl p = 39 :: mid ++ [39].
+Proof.
+  intros H. unfold shell_escaped_gen. destruct (find_first_not_of wl p) as [pos|] eqn:E.
+  - destruct (find_first_of 39 p pos) as [q|].
+    + exists (firstn q p ++ flat_map escape_byte (skipn q p)). cbn [app]. rewrite <- app_assoc. reflexivity.
+    + exists p. reflexivity.
+  - apply find_first_not_of_none in E. congruence.
+Qed.
+
+(* ---------- a whitelist probed from the code ---------- *)
+
+(* two whitelists with the same members give the same function *)
+Lemma whitelist_same_mem wl1 wl2 : whitelist_same wl1 wl2 = true -> forall b, mem_byte b wl1 = mem_byte b wl2.
+Proof.
+  unfold whitelist_same. intros H b. apply andb_true_iff in H. destruct H as [H1 H2].
+  rewrite forallb_forall in H1, H2.
+  destruct (mem_byte b wl1) eqn:E1.
+  - symmetry. apply H1. apply mem_byte_In. exact E1.
+  - destruct (mem_byte b wl2) eqn:E2; [|reflexivity]. apply mem_byte_In in E2. rewrite (H2 b E2) in E1. discriminate.
+Qed.
+
+Theorem shell_escaped_gen_ext wl1 wl2 : whitelist_same wl1 wl2 = true ->
+  forall s, shell_escaped_gen wl1 s = shell_escaped_gen wl2 s.
+Proof.
+  intros H s. pose proof (whitelist_same_mem wl1 wl2 H) as M.
+  assert (F : forall t, find_first_not_of wl1 t = find_first_not_of wl2 t).
+  { induction t as [|b r IH]; [reflexivity|]. cbn [find_first_not_of]. rewrite M, IH. reflexivity. }
+  unfold shell_escaped_gen. rewrite F. reflexivity.
+Qed.
+
+(* the round trip for the function of the code, given a probed whitelist [pw] (the bytes b with
+   shellEscaped([b]) = [b]) that has the members of the model's whitelist *)
+Corollary shell_roundtrip_probed pw p : whitelist_same pw whitelist = true -> p <> [] -> ~ In 0 p ->
+  shell_escaped_gen pw p = shell_escaped p /\ sh_words (shell_escaped_gen pw p) = Some [p].
+Proof.
+  intros H Hne H0. rewrite (shell_escaped_gen_ext pw whitelist H p). split; [reflexivity|].
+  apply shell_roundtrip_current; assumption.
+Qed.
+
+(* ---------- non-vacuity ---------- *)
+
+(* "it's a #1 ~dir/$x\n\xff" : a quote, blanks, '#', '~', '$', a newline, a byte 0xFF *)
+Definition ex_path : bytes := [105;116;39;115;32;97;32;35;49;32;126;100;105;114;47;36;120;10;255].
+
+Example ex_roundtrip : ex_path <> [] /\ ~ In 0 ex_path /\
+  shell_escaped ex_path = [39;105;116;39;92;39;39;115;32;97;32;35;49;32;126;100;105;114;47;36;120;10;255;39] /\
+  sh_words (shell_escaped ex_path) = Some [ex_path].
+Proof.
+  split; [discriminate|]. split; [|split; reflexivity].
+  unfold ex_path. cbn [In]. intros H. repeat (destruct H as [H|H]; [discriminate|]). exact H.
+Qed.
+
+Example ex_safe : shell_escaped [97; 47; 98; 46; 99; 61; 37] = [97; 47; 98; 46; 99; 61; 37] /\
+  forallb (fun b => mem_byte b whitelist) [97; 47; 98; 46; 99; 61; 37] = true /\
+  shell_escaped [35; 120] = [39; 35; 120; 39] /\ forallb (fun b => mem_byte b whitelist) [35; 120] = false.
+Proof. repeat split; reflexivity. Qed.
+
+Example ex_necessary : In 35 (35 :: whitelist) /\ 35 <> 0 /\ sh_meta 35 = true.
+Proof. split; [left; reflexivity|]. split; [discriminate | reflexivity]. Qed.
